@@ -1,6 +1,6 @@
 CONFIG = dict(
     coqfiles=["Props/C17L.v"],
-    n_quick=2500, n_thorough=150000, workers_quick=4,
+    n_quick=2500, n_thorough=400000, workers_quick=4,
     rule="sub-check of C17: C17's gated concurrent schedules (kind 2) on the real concurrency-limiting (70%, limit 1-3) or deduplicating (30%) replicator "
          "over the real local replicator, 2-6 goroutines, each using ReplicateMultiple, ReplicateSingle or ReplicateComposite (entry point per caller drawn "
          "uniformly / mostly composite / no ReplicateMultiple at all); in half of the limiter cases `limit` further callers arrive only after every other caller "
